@@ -227,7 +227,7 @@ def main():
         sys.exit(1 if (rep.r["n_divergences"] or rep.r["n_pred_failures"]) else 0)
 
     # 3. measurement
-    n = (8 if tier == "quick" else 64)
+    n = (16 if tier == "quick" else 64)
     off = 1000 + (seed % 997) * 1000
     indices = list(range(n)) + [off + k for k in range(n * (scale - 1))]
     if seed != 1 and scale == 1:
